@@ -359,6 +359,22 @@ impl<'a> World<'a> {
         self.log.s(class);
         self.log.s(&errc);
         self.log.u(r.consumed().unwrap_or(0) as u64);
+        // reach: a first fragment refused while a reassembly of the same frag id was pending (each such exit of
+        // decap_first has to give back what that reassembly held)
+        if let (Some((Kind::First, _, _)), true, true) = (hdr, bytes.len() > 2, matches!(r, RxRes::Err(..))) {
+            if open_before.contains(&bytes[2]) {
+                st.inc(match errc.as_str() {
+                    "InvalidLabel" => "probe.first_refused_with_pending.zero_label",
+                    "UnknownMandatoryHeader" => "probe.first_refused_with_pending.unknown_mandatory",
+                    "TotalLength" => "probe.first_refused_with_pending.total_length",
+                    "NoLabelSaved" => "probe.first_refused_with_pending.no_label_saved",
+                    "SizePduBuffer" => "probe.first_refused_with_pending.size_pdu_buffer",
+                    "GseLength" => "probe.first_refused_with_pending.gse_length",
+                    "SizeBuffer" => "probe.first_refused_with_pending.size_buffer",
+                    _ => "probe.first_refused_with_pending.other",
+                });
+            }
+        }
         if let Some((k, lt, _)) = hdr {
             let mut th = H64::new();
             th.s(k.name());
@@ -478,6 +494,16 @@ impl<'a> World<'a> {
             }
         }
         // -------- C03: reassembly oracle
+        // a first fragment that is delimited and identifies its frag id but whose extension chain can not be read
+        // (unknown mandatory id, chain running past the packet) is still the most recent first fragment of that id:
+        // nothing can be verified against it, so no completion is justified until another first fragment arrives
+        if let (Err(Malformed::UnknownMandatory(_)), Some((Kind::First, _, gl))) | (Err(Malformed::ExtTruncated), Some((Kind::First, _, gl))) = (&parsed, hdr) {
+            if bytes.len() >= gl + 2 && gl >= 3 {
+                st.inc("probe.unreadable_first_fragment_supersedes");
+                self.refrx.recv.remove(&bytes[2]);
+                self.refrx.acc.remove(&bytes[2]);
+            }
+        }
         if let Ok(p) = &parsed {
             let accepted_frag = matches!(&r, RxRes::Ok(DecapStatus::FragmentedPkt(_), _));
             match p.kind {
@@ -964,8 +990,8 @@ impl Scenario for RxSim {
             "C03" => &["reassembly_completed", "rej_crc", "rej_total_length", "rej_oversize", "rej_undefined_id"],
             "C04" => &["reuse_resolved", "rej_no_label_saved", "rej_zero_label", "rej_unknown_mandatory"],
             "C05" => &["rej_giveback_overflow", "rej_gse_length", "rej_size_buffer", "rej_oversize", "rej_underflow"],
-            "C08" => &["rej_crc", "rej_total_length", "rej_oversize", "rej_undefined_id", "rej_underflow", "rej_giveback_overflow", "rej_unknown_mandatory", "rej_no_label_saved", "rej_zero_label"],
-            "C16" => &["probe_complete_delivered", "probe_fragmented_delivered"],
+            "C08" => &["first_refused_with_pending.zero_label", "first_refused_with_pending.unknown_mandatory", "first_refused_with_pending.total_length", "first_refused_with_pending.no_label_saved", "first_refused_with_pending.size_pdu_buffer", "rej_crc", "rej_total_length", "rej_oversize", "rej_undefined_id", "rej_underflow", "rej_giveback_overflow", "rej_unknown_mandatory", "rej_no_label_saved", "rej_zero_label"],
+            "C16" => &["probe_complete_delivered", "probe_fragmented_delivered", "pre.all_slots_open", "pre.free_list_empty", "pre.free_list_full", "pre.probe_id_has_pending_reassembly", "pre.probe_slot_held_by_aliasing_id", "probe_broadcast", "probe_reuse_after_complete", "probe_with_extensions", "probe_first_fragment_without_payload", "probe_crc_only_end", "probe_longer_than_a_packet", "probe_near_max_total_length"],
             _ => &[],
         }
     }
@@ -1023,6 +1049,7 @@ impl Scenario for RxSim {
                 *s0.c.get("trait_calls.new_pdu").unwrap_or(&0),
                 *s0.c.get("trait_calls.new_frag").unwrap_or(&0),
                 *s0.c.get("trait_calls.take_frag").unwrap_or(&0),
+                *s0.c.get("trait_calls.save_frag").unwrap_or(&0),
             ];
             st.merge(&s0);
             st.inc("memory_fault_neighbourhoods");
@@ -1081,7 +1108,8 @@ impl Scenario for RxSim {
         let slots = (p.cfg.get_u("slots") as usize).clamp(1, 256);
         let maxpdu = (p.cfg.get_u("maxpdu") as usize).clamp(1, 70_000);
         let bufsize = (p.cfg.get_u("bufsize") as usize).clamp(maxpdu, 140_000);
-        let nbuf = (p.cfg.get_u("nbuf") as usize).min(slots + 2).min(12);
+        // (many buffers only when they are small)
+        let nbuf = (p.cfg.get_u("nbuf") as usize).min(slots + 2).min(if bufsize <= 256 { 260 } else { 12 });
         let table = dec_table(p.cfg.get_h("table"));
         let rx = RxNode::new(slots, maxpdu, table.clone(), false);
         let mut w = World { target, rx, refrx: RefRx::default(), table, allowed: None, bufsize, log: H64::new(), decaps: 0, completed: 0, faults_in_train: 0, rejected_after_take: 0, viol: None, no_delivery: BTreeMap::new(), prefix: vec![], cfg: p.cfg.clone() };
@@ -1191,11 +1219,9 @@ impl Scenario for RxSim {
                 }
                 "memfault" => {
                     let mo = MemOp::from_u(op.get_u("op"));
-                    // MemoryCorrupted from save_frag carries no buffer: injected only for totality (C05/C16)
-                    if mo == MemOp::SaveFrag && target == "C08" {
-                        st.inc("nofire.save_frag_fault_not_applicable");
-                        continue;
-                    }
+                    // a refused save ("occupied slot"): the trait's error value carries no buffer, so the
+                    // refusing wrapper keeps it (LedgerMemory::parked, a place of its own); everything else
+                    // has to stay where it was
                     w.rx.led.borrow_mut().arm(mo, op.get_u("nth"));
                 }
                 "ctxfault" => {
@@ -1251,69 +1277,173 @@ impl Scenario for RxSim {
                     w.rx.led.borrow_mut().disarm_all();
                     w.rx.reset();
                     w.allowed = None;
-                    let len = (op.get_u("len") as usize).min(maxpdu).min(60_000);
                     let seed = op.get_u("seed");
                     let fid = op.get_u("fid") as u8;
+                    // the complete packet carries an explicit label
                     let mut lab = Lab::dec(op.get_h("lab"));
                     if !lab.is_addr() || lab.is_zero6() {
                         lab = Lab::L3([1, 2, 3]);
                     }
-                    let kind = op.get_u("kind") % 2;
+                    // the fragmented PDU: any label kind (a re-use label only right after the complete packet)
+                    let kind = op.get_u("kind") % 3;
+                    let mut flab = if op.has("flab") { Lab::dec(op.get_h("flab")) } else { lab };
+                    if flab.is_zero6() || (flab == Lab::ReUse && kind != 2) {
+                        flab = lab;
+                    }
+                    let exts: Vec<(u16, Vec<u8>)> = if op.has("exts") { crate::wire::dec_exts(op.get_h("exts")) } else { vec![] };
+                    let fm = op.get_u("fm") == 1 && exts.last().map(|e| e.0 < 0x100).unwrap_or(false);
+                    let pt: u16 = if fm {
+                        exts.last().unwrap().0
+                    } else if op.has("pt") && op.get_u("pt") >= 0x600 && op.get_u("pt") <= 0xFFFF {
+                        op.get_u("pt") as u16
+                    } else {
+                        0x0800
+                    };
+                    // extension chain must be readable with the receiver's table, otherwise the probe is not valid
+                    let exts_ok = exts.iter().enumerate().all(|(i, e)| {
+                        if e.0 >= 0x100 {
+                            crate::wire::opt_ext_len(e.0) == Some(e.1.len())
+                        } else {
+                            match w.table.lookup(e.0) {
+                                MExt::NonFinal(n) => n as usize == e.1.len() && !(fm && i + 1 == exts.len()),
+                                MExt::Final(n) => n as usize == e.1.len() && fm && i + 1 == exts.len(),
+                                MExt::Unknown => false,
+                            }
+                        }
+                    }) && exts.iter().map(|e| e.1.len() + 2).sum::<usize>() < 60;
+                    let exts: Vec<(u16, Vec<u8>)> = if exts_ok { exts } else { vec![] };
+                    let (fm, pt) = if exts_ok { (fm, pt) } else { (false, if pt >= 0x600 { pt } else { 0x0800 }) };
+                    let flen_lab = if flab == Lab::ReUse { 0 } else { flab.len() };
+                    let len = (op.get_u("len") as usize).min(maxpdu).min(65535 - 2 - flen_lab);
+                    let clen = (if op.has("clen") { op.get_u("clen") as usize } else { len }).min(maxpdu).min(4000);
                     let nfrag = (op.get_u("nfrag") as usize).clamp(2, 4);
-                    // one storage buffer made available (or the free list is full)
-                    st.inc("lib_calls");
-                    match w.rx.provision(bufsize) {
-                        Ok(_) => {}
-                        Err((m, l)) => {
-                            let v = Violation::new("C16", "C16.provision_panicked", panic_site(&m, &l), m);
-                            let _ = w.report(st, v);
-                            break 'ops;
+                    let pdu = pdu_bytes(len, seed);
+                    let cpdu = pdu_bytes(clen, seed ^ 0x5555);
+                    // cut points of the fragmented PDU: given explicitly (u16 big endian list), else equal pieces
+                    let mut cuts: Vec<usize> = op.get_h("cuts").chunks(2).filter(|c| c.len() == 2).map(|c| u16::from_be_bytes([c[0], c[1]]) as usize).collect();
+                    let hdr_room = 3 + 2 + 2 + flen_lab + exts.iter().map(|e| e.1.len() + 2).sum::<usize>();
+                    let valid_cuts = !cuts.is_empty()
+                        && cuts.windows(2).all(|x| x[0] < x[1] || (x[0] == x[1] && false))
+                        && *cuts.last().unwrap() <= len
+                        && cuts[0] + hdr_room <= 4095
+                        && cuts.windows(2).all(|x| x[1] - x[0] <= 4094)
+                        && len - cuts.last().unwrap() <= 4090;
+                    if !valid_cuts {
+                        let n = nfrag.max(len / 3000 + 2);
+                        cuts = (1..n).map(|i| len * i / n).collect();
+                        cuts.dedup();
+                        if cuts.windows(2).any(|x| x[0] == x[1]) || cuts.is_empty() {
+                            cuts = vec![len / 2];
                         }
                     }
-                    let pdu = pdu_bytes(len, seed);
-                    let pkts: Vec<Vec<u8>> = if kind == 0 || len < nfrag {
-                        vec![wire::serialise(&Desc { kind: Kind::Complete, lt: lab.lt(), frag_id: 0, total_len: 0, ptype: 0x0800, label: lab.bytes(), exts: &[], final_mandatory: false, payload: &pdu[..len.min(4000)], crc: 0 }, None)]
-                    } else {
-                        gen::fragment(&pdu, fid, 0x0800, &lab, &[], false, nfrag, None)
-                    };
-                    let want_len = if kind == 0 || len < nfrag { len.min(4000) } else { len };
-                    let np = pkts.len();
-                    let mut delivered = false;
-                    for (i, pk) in pkts.iter().enumerate() {
-                        st.inc("packets");
-                        st.inc("lib_calls");
-                        let r = w.rx.decap(pk);
-                        w.log.s(r.class());
-                        let last = i + 1 == np;
-                        let ok = match &r {
-                            RxRes::Ok(DecapStatus::CompletedPkt(b, md), n) if last => {
-                                delivered = true;
-                                *n == pk.len() && md.pdu_len() == want_len && b.len() >= want_len && b[..want_len] == pdu[..want_len] && from_label(&md.label()) == lab && md.protocol_type() == 0x0800
-                            }
-                            RxRes::Ok(DecapStatus::FragmentedPkt(_), n) if !last => *n == pk.len(),
-                            _ => false,
-                        };
-                        if !ok {
-                            let ec = match &r {
-                                RxRes::Err(e, _) => err_class(e).to_string(),
-                                RxRes::Panic(m, l) => format!("panic:{}", panic_site(m, l)),
-                                x => x.class().to_string(),
-                            };
-                            let v = Violation::new(
-                                "C16",
-                                "C16.probe_not_delivered",
-                                format!("{}:{}:{}", if np == 1 { "complete" } else { "fragmented" }, if last { "last" } else { "nonlast" }, ec),
-                                format!("after a prefix of {} packets the probe ({} packet(s), pdu {} bytes, frag id {}) failed at packet {}: {}{}", prefix_pkts, np, want_len, fid, i, ec, if delivered { " (delivered but wrong)" } else { "" }),
-                            );
-                            let _ = w.report(st, v);
-                            break 'ops;
+                    let do_complete = kind == 0 || kind == 2 || len < 2;
+                    let do_frag = (kind == 1 || kind == 2) && len >= 2;
+                    // ---- state of the receiver when recovery starts
+                    {
+                        let g = w.rx.led.borrow();
+                        let att = g.attached_ids();
+                        if att.len() >= slots {
+                            st.inc("probe.pre.all_slots_open");
                         }
-                        if let RxRes::Ok(DecapStatus::CompletedPkt(b, _), _) = r {
-                            w.rx.app.push(b);
+                        if g.n_inside() == g.n_attached() {
+                            st.inc("probe.pre.free_list_empty");
+                        }
+                        if do_frag {
+                            if att.contains(&fid) {
+                                st.inc("probe.pre.probe_id_has_pending_reassembly");
+                            } else if att.iter().any(|a| (*a as usize) % slots == (fid as usize) % slots) {
+                                st.inc("probe.pre.probe_slot_held_by_aliasing_id");
+                            }
+                        }
+                    }
+                    let mut transfers: Vec<(Vec<Vec<u8>>, Vec<u8>, Lab, u16, &'static str)> = vec![];
+                    if do_complete {
+                        let cexts: Vec<(u16, Vec<u8>)> = if kind == 2 { vec![] } else { exts.clone() };
+                        let (cfm, cpt) = if kind == 2 { (false, 0x0800) } else { (fm, pt) };
+                        let room = 4095usize.saturating_sub(2 + lab.len() + cexts.iter().map(|e| e.1.len() + 2).sum::<usize>());
+                        let cl = clen.min(room);
+                        transfers.push((vec![wire::serialise(&Desc { kind: Kind::Complete, lt: lab.lt(), frag_id: 0, total_len: 0, ptype: cpt, label: lab.bytes(), exts: &cexts, final_mandatory: cfm, payload: &cpdu[..cl], crc: 0 }, None)], cpdu[..cl].to_vec(), lab, cpt, "complete"));
+                    }
+                    if do_frag {
+                        // the CRC of a re-use first fragment does not cover a label
+                        let t = gen::fragment(&pdu, fid, pt, &flab, &exts, fm, cuts.len() + 1, Some(&cuts));
+                        let want_lab = if flab == Lab::ReUse { lab } else { flab };
+                        transfers.push((t, pdu.clone(), want_lab, pt, "fragmented"));
+                    }
+                    for (pkts, want, want_lab, want_pt, tname) in transfers {
+                        // one storage buffer made available (or the free list is full)
+                        st.inc("lib_calls");
+                        match w.rx.provision(bufsize) {
+                            Ok(true) => {}
+                            Ok(false) => st.inc("probe.pre.free_list_full"),
+                            Err((m, l)) => {
+                                let v = Violation::new("C16", "C16.provision_panicked", panic_site(&m, &l), m);
+                                let _ = w.report(st, v);
+                                break 'ops;
+                            }
+                        }
+                        let want_len = want.len();
+                        let np = pkts.len();
+                        let mut delivered = false;
+                        for (i, pk) in pkts.iter().enumerate() {
+                            st.inc("packets");
+                            st.inc("lib_calls");
+                            let r = w.rx.decap(pk);
+                            w.log.s(r.class());
+                            let last = i + 1 == np;
+                            let ok = match &r {
+                                RxRes::Ok(DecapStatus::CompletedPkt(b, md), n) if last => {
+                                    delivered = true;
+                                    *n == pk.len() && md.pdu_len() == want_len && b.len() >= want_len && b[..want_len] == want[..] && from_label(&md.label()) == want_lab && md.protocol_type() == want_pt
+                                }
+                                RxRes::Ok(DecapStatus::FragmentedPkt(_), n) if !last => *n == pk.len(),
+                                _ => false,
+                            };
+                            if !ok {
+                                let ec = match &r {
+                                    RxRes::Err(e, _) => err_class(e).to_string(),
+                                    RxRes::Panic(m, l) => format!("panic:{}", panic_site(m, l)),
+                                    x => x.class().to_string(),
+                                };
+                                let v = Violation::new(
+                                    "C16",
+                                    "C16.probe_not_delivered",
+                                    format!("{}:{}:{}", tname, if last { "last" } else { "nonlast" }, ec),
+                                    format!("after a prefix of {} packets the probe ({} packet(s), pdu {} bytes, frag id {}, label {}, {} extension(s)) failed at packet {}: {}{}", prefix_pkts, np, want_len, fid, want_lab.short(), exts.len(), i, ec, if delivered { " (delivered but wrong)" } else { "" }),
+                                );
+                                let _ = w.report(st, v);
+                                break 'ops;
+                            }
+                            if let RxRes::Ok(DecapStatus::CompletedPkt(b, _), _) = r {
+                                w.rx.app.push(b);
+                            }
+                        }
+                        st.inc(if tname == "complete" { "probe.probe_complete_delivered" } else { "probe.probe_fragmented_delivered" });
+                        if tname == "fragmented" {
+                            if cuts[0] == 0 {
+                                st.inc("probe.probe_first_fragment_without_payload");
+                            }
+                            if *cuts.last().unwrap() == len {
+                                st.inc("probe.probe_crc_only_end");
+                            }
+                            if !exts.is_empty() {
+                                st.inc("probe.probe_with_extensions");
+                            }
+                            if flab == Lab::Bcast {
+                                st.inc("probe.probe_broadcast");
+                            }
+                            if flab == Lab::ReUse {
+                                st.inc("probe.probe_reuse_after_complete");
+                            }
+                            if len > 4097 {
+                                st.inc("probe.probe_longer_than_a_packet");
+                            }
+                            if len >= 65000 {
+                                st.inc("probe.probe_near_max_total_length");
+                            }
                         }
                     }
                     probe_done = true;
-                    st.inc(if np == 1 { "probe.probe_complete_delivered" } else { "probe.probe_fragmented_delivered" });
                 }
                 _ => {}
             }
@@ -1640,7 +1770,7 @@ pub mod gen {
     /// a train whose fragments add up to more than 65535 bytes (receiver storage 70000):
     /// the announced total length is the real length modulo 65536 and the CRC is the CRC of what a
     /// receiver with a wrapping 16-bit counter would have in its buffer, or of the real data
-    fn long_train(rng: &mut Rng) -> Program {
+    fn long_train(rng: &mut Rng, target: &str) -> Program {
         let cr = crcref();
         let fid = rng.below(256) as u8;
         let lab = label(rng, false);
@@ -1665,13 +1795,94 @@ pub mod gen {
             off += n;
             first = false;
         }
+        if target == "C16" {
+            let t = ExtTable::default();
+            let pfid = if rng.chance(1, 2) { fid } else { rng.below(256) as u8 };
+            ops.push(probe_op(rng, 70_000, &t, pfid));
+        }
         Program { scenario: "rxsim", cfg: cfg(2, 70_000, 70_000, 3, &ExtTable::default()), ops }
+    }
+
+    /// the recovery transfer(s) of C16: a complete packet with an explicit label and/or a fragmented PDU of any
+    /// label kind, on any frag id, with or without header extensions the receiver knows, cut anywhere (first fragment
+    /// without payload and CRC-only end fragment included), up to the storage size
+    fn probe_op(rng: &mut Rng, maxpdu: usize, table: &ExtTable, fid: u8) -> Op {
+        let lab = addr_label(rng);
+        let kind = *rng.pick(&[0u64, 1, 1, 2, 2, 2]);
+        let flab = match rng.below(8) {
+            0 => Lab::Bcast,
+            1 if kind == 2 => Lab::ReUse,
+            2 => Lab::L3([0; 3]),
+            _ => addr_label(rng),
+        };
+        let fl = if flab == Lab::ReUse { 0 } else { flab.len() };
+        let cap = maxpdu.min(65535 - 2 - fl);
+        let len = match rng.below(10) {
+            0 => cap,
+            1 => cap.saturating_sub(rng.usize_in(0, 3)),
+            2 => rng.usize_in(0, 5).min(cap),
+            3 => rng.usize_in(4080.min(cap), 4100.min(cap)),
+            _ => rng.usize_in(0, cap.min(400)),
+        };
+        // extensions the receiver knows
+        let mut exts: Vec<(u16, Vec<u8>)> = vec![];
+        let mut fm = 0u64;
+        if rng.chance(1, 3) {
+            for _ in 0..rng.usize_in(1, 3) {
+                let h = rng.range(1, 5);
+                exts.push(((h << 8) as u16 | rng.below(256) as u16, rng.bytes((h as usize - 1) * 2)));
+            }
+            for (id, m) in &table.entries {
+                match m {
+                    MExt::NonFinal(n) if rng.chance(1, 3) => exts.insert(0, (*id, rng.bytes(*n as usize))),
+                    MExt::Final(n) if fm == 0 && rng.chance(1, 4) => {
+                        exts.push((*id, rng.bytes(*n as usize)));
+                        fm = 1;
+                    }
+                    _ => {}
+                }
+            }
+        }
+        // cut points: strictly increasing, pieces short enough for one packet each
+        let mut cuts: Vec<usize> = vec![];
+        if len >= 2 {
+            let mut at = match rng.below(4) {
+                0 => 0, // first fragment without payload
+                _ => rng.usize_in(1, len.min(3900)),
+            };
+            loop {
+                cuts.push(at);
+                if len - at <= 4090 && (rng.chance(1, 2) || cuts.len() > 40) {
+                    break;
+                }
+                let step = if len - at > 4000 { rng.usize_in(3000, 4000) } else { rng.usize_in(1, (len - at).max(1)) };
+                if at + step >= len {
+                    if rng.chance(1, 2) && at < len {
+                        cuts.push(len); // CRC-only end fragment
+                    }
+                    break;
+                }
+                at += step;
+            }
+        }
+        let mut ch: Vec<u8> = vec![];
+        for c in &cuts {
+            ch.extend_from_slice(&(*c as u16).to_be_bytes());
+        }
+        let mut o = Op::new("probe").u("kind", kind).u("fid", fid as u64).u("len", len as u64).u("clen", rng.range(0, maxpdu.min(4000) as u64)).u("seed", rng.next()).h("lab", lab.enc()).h("flab", flab.enc()).u("nfrag", rng.range(2, 4)).u("fm", fm).u("pt", *rng.pick(&[0x0800u64, 0x0600, 0x86DD, 0xFFFF]));
+        if !exts.is_empty() {
+            o = o.h("exts", crate::wire::enc_exts(&exts));
+        }
+        if !ch.is_empty() {
+            o = o.h("cuts", ch);
+        }
+        o
     }
 
     pub fn generate(target: &str, idx: u64, rng: &mut Rng, tier: Tier) -> Program {
         // rare: trains longer than the 16-bit counters (C03 silent corruption / C05 totality / C16 recovery)
         if matches!(target, "C03" | "C05" | "C08" | "C16") && idx % 997 == 996 {
-            return long_train(rng);
+            return long_train(rng, target);
         }
         match target {
             "C03" => gen_c03(idx, rng, tier),
@@ -1834,6 +2045,17 @@ pub mod gen {
                 trains.push(train(rng, &mut table, fid, maxlen));
             }
         }
+        // a first fragment the receiver refuses, placed inside a train of the same frag id: it is the most recent
+        // first fragment of that id from then on, so the rest of the older train must not complete anything
+        if rng.chance(1, 5) {
+            let t = rng.usize_in(0, trains.len() - 1);
+            if trains[t].len() >= 2 && trains[t][0].len() > 2 {
+                let fid = trains[t][0][2];
+                let x = refused_first(rng, fid, &table);
+                let pos = rng.usize_in(1, trains[t].len() - 1);
+                trains[t].insert(pos, x);
+            }
+        }
         // interleave or concatenate (splice on one id when same_fid)
         if rng.chance(1, 2) {
             for t in &trains {
@@ -1861,6 +2083,40 @@ pub mod gen {
         let maxpdu = if tight { rng.usize_in(8, maxlen / 2 + 8) } else { maxlen + 16 };
         let ops = seq.into_iter().map(|(b, f)| feed(b, f)).collect();
         Program { scenario: "rxsim", cfg: cfg(slots, maxpdu, maxpdu, slots + 2, &table), ops }
+    }
+
+    /// a delimited first fragment on `fid` that every receiver refuses: unknown mandatory extension, extension chain
+    /// running past the packet, all-zero 6-byte label, total length not above what the fragment itself carries
+    pub fn refused_first(rng: &mut Rng, fid: u8, table: &ExtTable) -> Vec<u8> {
+        let lab = label(rng, false);
+        let lab = if lab == Lab::ReUse { L3A } else { lab };
+        let pl = rng.rbytes(1, 12);
+        let total = (pl.len() + 2 + lab.len() + rng.usize_in(1, 20)) as u16;
+        match rng.below(4) {
+            0 => {
+                let mut id = 0x40u16 + rng.below(0x3F) as u16;
+                while table.lookup(id) != MExt::Unknown {
+                    id = (id + 1) & 0xFF;
+                }
+                wire::serialise(&Desc { kind: Kind::First, lt: lab.lt(), frag_id: fid, total_len: total, ptype: 0x0800, label: lab.bytes(), exts: &[(id, rng.rbytes(0, 4))], final_mandatory: false, payload: &pl, crc: 0 }, None)
+            }
+            1 => {
+                // optional extension announcing 8 data bytes, packet cut inside them
+                let id = 0x0500 | rng.below(256) as u16;
+                let mut p = wire::serialise(&Desc { kind: Kind::First, lt: lab.lt(), frag_id: fid, total_len: total, ptype: 0x0800, label: lab.bytes(), exts: &[(id, rng.bytes(8))], final_mandatory: false, payload: &[], crc: 0 }, None);
+                let keep = 7 + lab.len() + rng.usize_in(0, 9);
+                p.truncate(keep.min(p.len()));
+                let gl = (p.len() - 2) as u16;
+                p[0] = (p[0] & 0xF0) | (gl >> 8) as u8;
+                p[1] = gl as u8;
+                p
+            }
+            2 => wire::serialise(&Desc { kind: Kind::First, lt: LT_6, frag_id: fid, total_len: total, ptype: 0x0800, label: &[0; 6], exts: &[], final_mandatory: false, payload: &pl, crc: 0 }, None),
+            _ => {
+                let small = rng.below(pl.len() as u64 + 1) as u16;
+                wire::serialise(&Desc { kind: Kind::First, lt: lab.lt(), frag_id: fid, total_len: small, ptype: 0x0800, label: lab.bytes(), exts: &[], final_mandatory: false, payload: &pl, crc: 0 }, None)
+            }
+        }
     }
 
     fn gen_c04b(rng: &mut Rng) -> Program {
@@ -1966,7 +2222,7 @@ pub mod gen {
         let base = rng.below(200) as u8;
         for i in 0..open_n {
             // aliasing ids when more contexts than slots are requested
-            let fid = base.wrapping_add((i * slots) as u8 + if class % 4 == 3 { i as u8 } else { 0 });
+            let fid = base.wrapping_add(((i * slots) as u8).wrapping_add(if class % 4 == 3 { i as u8 } else { 0 }));
             let l = *rng.pick(&[L6A, L3A, Lab::Bcast]);
             let pdu = pdu_bytes(maxpdu.min(24).max(4), rng.next());
             let t = fragment(&pdu, fid, 0x0800, &l, &[], false, 3, None);
@@ -2150,7 +2406,7 @@ pub mod gen {
         // systematic memory-fault placement: run idx % 8 == 0 fails the (idx/8 % 24)-th call of an op
         if idx % 4 == 0 {
             let k = (idx / 4) % 40;
-            ops.push(Op::new("memfault").u("op", k % 4).u("nth", k / 4));
+            ops.push(Op::new("memfault").u("op", k % 5).u("nth", k / 5));
         }
         let _ = tier;
         for _ in 0..n {
@@ -2160,7 +2416,7 @@ pub mod gen {
                 3 => ops.push(Op::new("reset")),
                 4 => {
                     if rng.chance(2, 3) {
-                        ops.push(Op::new("memfault").u("op", rng.below(4)).u("nth", rng.below(3)))
+                        ops.push(Op::new("memfault").u("op", rng.below(5)).u("nth", rng.below(3)))
                     } else {
                         ops.push(ctxfault_op(rng, maxpdu))
                     }
@@ -2199,11 +2455,43 @@ pub mod gen {
                 _ => {
                     // a train: valid, or with one rejection cause (CRC, length, oversize fragment, lost fragment)
                     fid = if rng.chance(1, 3) { fid } else if rng.chance(1, 2) { fid.wrapping_add(slots as u8) } else { fid.wrapping_add(1) };
-                    let l = *rng.pick(&labs);
-                    let cause = rng.below(7);
+                    let mut l = *rng.pick(&labs);
+                    let cause = rng.below(12);
                     let len = if cause == 3 { maxpdu + rng.usize_in(1, 12) } else { rng.usize_in(3, maxpdu) };
                     let pdu = pdu_bytes(len, rng.next());
-                    let mut t = fragment(&pdu, fid, 0x0800, &l, &[], false, rng.usize_in(2, 4), None);
+                    // first fragments rejected before / after the slot is claimed (each of these exits of decap_first
+                    // gives back what the pending reassembly of the id held): unknown mandatory extension, zero
+                    // label, truncated extension chain; and accepted first fragments that carry extensions
+                    let (exts, pt, fm): (Vec<(u16, Vec<u8>)>, u16, bool) = match cause {
+                        7 => (vec![(0x0055, vec![1])], 0x0800, false),
+                        9 => (vec![(0x0500 | rng.below(256) as u16, rng.bytes(8))], 0x0800, false),
+                        _ if rng.chance(1, 4) => {
+                            let (e, p) = ext_chain(rng, &mut table);
+                            let fm = e.last().map(|x| x.0 < 0x100 && x.0 == p).unwrap_or(false);
+                            (e, p, fm)
+                        }
+                        _ => (vec![], 0x0800, false),
+                    };
+                    if cause == 8 {
+                        l = Lab::L6([0; 6]);
+                    }
+                    let mut t = fragment(&pdu, fid, pt, &l, &exts, fm, rng.usize_in(2, 4), None);
+                    if cause == 9 {
+                        // cut the first fragment inside its 8-byte extension (the GSE length says so too)
+                        let keep = 7 + l.len() + rng.usize_in(0, 7);
+                        if t[0].len() > keep {
+                            t[0].truncate(keep);
+                            let gl = (keep - 2) as u16;
+                            t[0][0] = (t[0][0] & 0xF0) | (gl >> 8) as u8;
+                            t[0][1] = gl as u8;
+                        }
+                    }
+                    if cause == 10 {
+                        // total length smaller than what the first fragment alone carries
+                        let small = rng.below(3) as u16;
+                        t[0][3] = (small >> 8) as u8;
+                        t[0][4] = small as u8;
+                    }
                     match cause {
                         1 => {
                             let k = t.len() - 1;
@@ -2224,7 +2512,7 @@ pub mod gen {
                         _ => {}
                     }
                     for p in t {
-                        ops.push(feed(p, if cause == 0 || cause == 6 { 0 } else { 10 }));
+                        ops.push(feed(p, if cause == 0 || cause == 6 || cause == 11 { 0 } else { 10 }));
                     }
                 }
             }
@@ -2243,9 +2531,14 @@ pub mod gen {
 
     fn gen_c16(rng: &mut Rng) -> Program {
         let table = std_table();
-        let slots = if rng.chance(1, 50) { 256 } else { rng.usize_in(1, 4) };
-        let maxpdu = *rng.pick(&[16usize, 64, 200]);
-        let nbuf = rng.usize_in(0, slots + 2);
+        let slots = match rng.below(50) {
+            0 => 256,
+            1 => *rng.pick(&[5usize, 7, 8, 16, 100, 255]),
+            _ => rng.usize_in(1, 4),
+        };
+        // storage: mostly small; sometimes one maximal packet, more than a packet, more than the 16-bit lengths
+        let maxpdu = if slots <= 4 && rng.chance(1, 12) { *rng.pick(&[4096usize, 5000, 9000, 65536, 70000]) } else { *rng.pick(&[16usize, 64, 200]) };
+        let nbuf = if maxpdu > 256 { rng.usize_in(0, (slots + 2).min(6)) } else { rng.usize_in(0, slots + 2) };
         let class = rng.below(48);
         let mut ops = state_prefix(rng, class, slots, maxpdu);
         let n = match rng.below(10) {
@@ -2255,6 +2548,15 @@ pub mod gen {
         };
         let mut tbl = table.clone();
         let mut fid = rng.below(256) as u8;
+        // many slots: sometimes leave an unfinished train on every slot (needs a buffer for each)
+        if slots > 4 && rng.chance(1, 2) {
+            for i in 0..slots {
+                let pdu = pdu_bytes(6, rng.next());
+                let t = fragment(&pdu, fid.wrapping_add(i as u8), 0x0800, &L3A, &[], false, 2, None);
+                ops.push(feed(t[0].clone(), 0));
+            }
+        }
+        let trainmax = if maxpdu > 256 { (maxpdu + 10).min(12_000) } else { maxpdu + 10 };
         for _ in 0..n {
             match rng.below(12) {
                 0 | 1 => ops.push(feed(junk(rng), 9)),
@@ -2274,7 +2576,7 @@ pub mod gen {
                 }
                 _ => {
                     fid = if rng.chance(1, 2) { fid.wrapping_add(slots as u8) } else { fid.wrapping_add(1) };
-                    let mut t: Vec<(Vec<u8>, u64)> = if rng.chance(2, 3) { train(rng, &mut tbl, fid, maxpdu + 10).into_iter().map(|p| (p, 0)).collect() } else { crafted(rng, fid).into_iter().map(|p| (p, 10)).collect() };
+                    let mut t: Vec<(Vec<u8>, u64)> = if rng.chance(2, 3) { train(rng, &mut tbl, fid, trainmax).into_iter().map(|p| (p, 0)).collect() } else { crafted(rng, fid).into_iter().map(|p| (p, 10)).collect() };
                     if !t.is_empty() && rng.chance(1, 2) {
                         let k = rng.usize_in(1, t.len());
                         t.truncate(k); // unfinished train
@@ -2289,8 +2591,13 @@ pub mod gen {
                 }
             }
         }
-        let lab = addr_label(rng);
-        ops.push(Op::new("probe").u("kind", rng.below(2)).u("fid", rng.below(256)).u("len", rng.range(0, maxpdu as u64)).u("seed", rng.next()).h("lab", lab.enc()).u("nfrag", rng.range(2, 4)));
+        // the probe's frag id: any; often one that has a pending reassembly or shares its slot
+        let pfid = match rng.below(3) {
+            0 => fid,
+            1 => fid.wrapping_add(slots as u8),
+            _ => rng.below(256) as u8,
+        };
+        ops.push(probe_op(rng, maxpdu, &table, pfid));
         let _ = Val::U(0);
         Program { scenario: "rxsim", cfg: cfg(slots, maxpdu, maxpdu, nbuf, &table), ops }
     }
